@@ -254,7 +254,7 @@ class C17:
                 for nb in sorted({0, 1, extra // 2, extra - 1}):
                     flist.append((("op", idx, ("crash-after-bytes", nb)), "write-crash-after-bytes", kind))
                     flist.append((("op", idx, ("short-then-error", faults.ERRNOS["ENOSPC"], nb)), "write-short-then-enospc", kind))
-                    if path.startswith("fd") and nb:
+                    if (path.startswith("fd") or path.startswith("raw:")) and nb:
                         # descriptor-level write: the kernel may accept only part of the data WITHOUT raising
                         flist.append((("op", idx, ("short-silent", nb)), "write-short-silent", kind))
         execs = 0
@@ -429,6 +429,10 @@ class C18:
             case["out"] = rng.choice([None, None, "file", "file", "dir"])
             case["preexisting"] = rng.choice([None, None, "probe", "probe", "probe-empty", "outfile", "outfile-empty"])
             case["fail"] = rng.random() < 0.15        # invalid piece length: create must fail without side effects
+            if not case["fail"] and rng.random() < 0.1:
+                # metadata that cannot be encoded as UTF-8 (a lone surrogate from a mis-decoded argument, a file name
+                # that is not UTF-8): whether create copes or fails, it may not leave anything but its output behind
+                case["fail"] = rng.choice(["comment-unencodable", "name-unencodable"])
             case["pl"] = rng.choice([None, 14, 16384, 15])
             case["align"] = rng.random() < 0.2
             case["magnet"] = rng.random() < 0.2
@@ -555,7 +559,8 @@ class C18:
             o = case["opts"]
             argv = prefix + ([] if cmd == "implicit" else [cmd])
             argv += [root, "--meta-version", str(case["version"]), "--prog", rng.choice(["0", "1", "2"])]
-            if case.get("fail"):
+            fk = case.get("fail")
+            if fk is True:
                 argv += ["--piece-length", rng.choice(["17000", "12", "abc"])]
             elif case["pl"]:
                 argv += ["--piece-length", str(case["pl"])]
@@ -563,8 +568,13 @@ class C18:
                 argv.append("--private")
             if o.get("source") is not None:
                 argv += ["--source", o["source"]]
-            if o.get("comment") is not None:
+            if fk == "comment-unencodable":
+                argv += ["--comment", "caf\udce9 \udcff"]
+            elif o.get("comment") is not None:
                 argv += ["--comment", o["comment"]]
+            if fk == "name-unencodable" and os.path.isdir(root):
+                with open(os.path.join(os.fsencode(root), b"not-utf8-\xff\xfe.bin"), "wb") as fd:
+                    fd.write(b"x" * 100)
             if case["align"]:
                 argv.append("--align")
             if case["magnet"]:
@@ -598,10 +608,12 @@ class C18:
                 with open(os.path.join(sb, outrel), "wb") as fd:
                     fd.write(b"" if pre == "outfile-empty" else b"previous output")
                 may_change.add(outrel)
-            if case.get("fail"):
+            if case.get("fail") is True:
                 counters["failing_create_cases"] = 1
             elif outrel not in may_change:
                 expect_added.add(outrel)
+            if isinstance(case.get("fail"), str):
+                counters["unencodable_metadata_cases"] = 1
         before = env.snapshot(sb)
         env.AUDIT.start()
         oc = drive.cli_execute(argv)
@@ -649,7 +661,7 @@ class C18:
         else:
             if wevents:
                 counters["create_write_events_seen"] = 1
-            if case.get("fail"):
+            if case.get("fail") and not (isinstance(case["fail"], str) and oc.ok):
                 if oc.ok:
                     viol.append(oracles.V("create-accepted-invalid-piece-length", argv=shown))
                 elif d["removed"] or d["changed"] or set(d["added"]) - {outrel}:
